@@ -164,6 +164,9 @@ def C06(V, tier):
     wd = workdir("C06")
     start_model(V, wd, tier, ["Start_quick"] if tier == "quick" else ["Start_quick", "Start_thorough"])
     start_replay(V, wd, tier, ["C06"])
+    # the timestamp-aware operators: window managers / WindowOperator (late results)
+    import prop_windows
+    prop_windows.C06_windows(V, tier)
 
 
 def C02(V, tier):
